@@ -25,13 +25,16 @@ CLAIMS.update({
         text="Decoder kernels on arbitrary bytes: for every buffer of 0..11 symbolic bytes each LEB128 decoder returns a value or an error (no Go run-time panic), "
              "accepts exactly the encodings that terminate within 5/10 bytes and fit the width (unsigned) / returns the sign-extended payload with bounded bytesRead (signed), "
              "and Load(Encode(v)) == v for every 32/64-bit v. Validator family: a multi-value `if` without `else` typed (p)->(r) for every p, r in {i32,i64,f32,f64} is accepted iff p == r, and accepted modules run on the interpreter without internal failure and return the specified value. "
+             "`ref.func x` in a body, for ALL 2^32 x (patched as a 5-byte LEB128), is accepted iff x is a function index declared outside function bodies (element items resolved through a global declare none). "
+             "Dead-code family: 25 immediate-carrying instruction sequences (label vectors with defaults, block types, constants whose bytes look like opcodes, memargs, prefixed opcodes, lane immediates) placed in unreachable code of a by-construction valid function: accepted by decoder, validator, interpreter compiler and wazevo front end, and both engines return the specified value for all arguments. "
              "Whole-module decoding on arbitrary bytes and the rest of function-body validation are outside this claim (see evidence bounds)."),
     "C16": dict(level="model_checking", engine="gosym", technique=E1_TECH, design_ref="DESIGN.md §5 C16",
         text="One-step induction against ghost reference models: from an arbitrary descriptor table state (0..2 symbolic mask words, symbolic items) Insert returns the lowest free key, "
-             "InsertAt/Delete/Lookup act as a map for every int32 key and leave all other keys unchanged. OS file semantics are outside the claim."),
+             "InsertAt/Delete/Lookup act as a map for every int32 key and leave all other keys unchanged. FSContext open/close/renumber against a ghost map from states with 0, 59 or 60 descriptors open (just below / at the 64-entry word boundary of the table's bitmap) plus 0..2 opens and two arbitrary operations on descriptors around the top of the table; fd_readdir two-step protocol. "
+             "Renumbering to descriptors far above the table (a table of pointers of symbolic size is not encodable), read/write/seek content and OS file semantics are outside the claim."),
     "C17": dict(level="model_checking", engine="gosym", technique=E1_TECH, design_ref="DESIGN.md §5 C17",
         text="For all 2^80 path_open flag words (dirflags, oflags, fdflags, rights) and all 2^32 Oflag words, what a read-only mount forwards to the wrapped file system contains none of "
-             "O_WRONLY|O_RDWR|O_CREAT|O_TRUNC or the open is refused; every mutating FS/File method of ReadFS, readFile and AdaptFS fails without reaching the wrapped object (recording stub). "
+             "O_WRONLY|O_RDWR|O_CREAT|O_TRUNC or the open is refused; every mutating FS/File method of ReadFS, readFile and AdaptFS fails without reaching the wrapped object (recording stub; the opened path is a file or a directory, opened with or without O_DIRECTORY). "
              "What the kernel does with the remaining flags is outside the claim."),
     "C10": dict(level="model_checking", engine="gosym", technique=E1_TECH, design_ref="DESIGN.md §5 C10",
         text="Sequential refinement of an atomic name registry: every history of 0..3 instantiations over names {anonymous, a, b} (duplicates included) followed by every pair of operations out of "
@@ -42,10 +45,12 @@ CLAIMS.update({
         text="For every declared (min, optional max) and every configured limit <= 65536, newMemorySizer+Memory.Validate accept or reject identically with memoryCapacityFromMax on or off, with equal min/max and min <= cap <= max <= limit. "
              "Cache-key soundness at the front end: the decode-time options outside the module identity (capacity-from-max, DWARF, custom sections; 2^3 settings) x 6 program shapes that access memory around memory.grow "
              "(direct, in a callee, in an if arm, in a loop): the SSA compiled under each setting is evaluated in the most general instance (memory base moves at every grow) and agrees with the interpreter for all arguments, sizes 0..8 pages and contents - "
-             "so an entry compiled under one setting is valid under any other. File-cache serialisation, listeners x cache, and custom allocators are outside this claim."),
+             "so an entry compiled under one setting is valid under any other. Cache hit == fresh compile: two real wazevo engines sharing a file cache; a module with memory, passive data and memory.init/data.drop compiled by one and obtained through the cache-hit path by the other, for listeners none / all-nil factory / subset and both termination settings: same machine code, function offsets, termination flag and module-context layout. "
+             "Custom allocators and in-memory cache sharing between runtimes are outside this claim."),
     "C19": dict(level="model_checking", engine="gosym", technique=E1_TECH, design_ref="DESIGN.md §5 C19",
         text="From a module configuration built by 0..3 WithEnv calls (real append capacities via a model of runtime.growslice), two sibling derivations and one grandchild derivation by arbitrary With... calls "
              "(symbolic strings, keys colliding or not) leave parent and earlier child deeply unchanged (backing arrays compared); same for FSConfig mounts (slices, map, preopens copies) and every RuntimeConfig With.... "
+             "Socket configuration: siblings and grandchild of bases with 0..5 listeners (symbolic ports). Instantiation: Runtime.InstantiateModule (real runtime on the interpreter, context with or without a socket configuration) and toSysContext leave every field of the configuration unchanged. "
              "Data races between goroutines are outside the claim."),
     "C02": dict(level="model_checking", engine="gosym", technique=E1_TECH, design_ref="DESIGN.md §5 C02",
         text="Interpreter side, through the real decode/validate/compile/instantiate/call pipeline: each of the 23 scalar load/store instructions, for all 2^32 base addresses, all 2^32 static offsets "
@@ -61,22 +66,25 @@ CLAIMS.update({
         text="Interpreter side: for every stack-based host function signature of 0..3 params and 0..2 results over {i32,i64,f32,f64} and all values, the host receives exactly the guest's values and guest and Go caller "
              "(Call and CallWithStack) receive exactly the host's results; reflection-defined host functions (a model of the reflect calls callGoFunc makes) for four representative signatures; api Encode/Decode round trips. "
              "Machine level: the real amd64 CompileGoFunctionTrampoline for 6 signatures with register- and stack-passed parameters of every type is evaluated by the machine-instruction evaluator: at the exit to Go the host's stack holds exactly "
-             "the guest's arguments in order, and the trampoline returns exactly the host's results. wazevo's entry preamble and the arm64 trampolines are outside this claim."),
+             "the guest's arguments in order, and the trampoline returns exactly the host's results. The real amd64 Go->guest entry preamble for 7 signatures (register- and stack-passed parameters and results of every type): every parameter reaches its register or stack slot with exactly the value Go passed (full width), the result slice holds exactly the callee's results, Go's stack and frame pointers are restored. "
+             "The assembly entry point itself and the arm64 trampolines are outside this claim."),
     "C06": dict(level="model_checking", engine="gosym", technique=E1_TECH, design_ref="DESIGN.md §5 C06",
         text="Interpreter side, real pipeline: a guest function that first writes memory and a global and then fails in one of 8 ways (unreachable, integer divide by zero, out-of-bounds load, unbounded recursion to the "
              "call-stack ceiling, host panic with sys.ExitError of any code, host panic with an error, with a string, Go run-time error inside the host function), directly or nested guest->host->guest, for all argument values: "
              "the caller gets the documented error kind, earlier effects persist, the call engine's stack and frames are empty, the same function object fails the same way again and the instance keeps computing correctly. "
+             "Cross-module: a call made on module app that runs a function imported from module lib which reaches an exiting host function (proc_exit-like) by a direct call or through lib's table: the host function is handed lib, lib is closed, app stays open, registered and computing. "
              "wazevo's native unwinding, stack growth and register save areas are outside this claim."),
     "C07": dict(level="model_checking", engine="gosym", technique=E1_TECH, design_ref="DESIGN.md §5 C07",
         text="Interpreter side, compiled with close-on-context-done: for 10 cycle shapes (loop br / br_if / br_table, nested loops, self and mutual recursion, return_call self and mutual, call_indirect and "
              "return_call_indirect cycles) with every branch condition symbolic, a module closed before the cycle ends the call with the exit error for its cause within a step budget (exceeding the budget is the violation, replayed "
              "natively as a hang); a close arriving from a host callback at round 0..2 stops the guest at the next check; a call with an already-done context returns the matching exit code and closes the module. "
-             "The watcher goroutine is not scheduled in the model (its effect is applied explicitly); Compiler front end: for each cycle shape (incl. tail calls; with and without imported functions) the optimised SSA compiled with close-on-context-done leaves through the exit-code check within the step bound once the module is closed, "
+             "The watcher goroutine is not scheduled in the model (its effect is applied explicitly); Cross-module: each cycle shape running in a function imported from another module, entered directly (depth 1) or through another function of that module (depth 2), stops when the module the call was made on is closed. Compiler front end: for each cycle shape (incl. tail calls; with and without imported functions) the optimised SSA compiled with close-on-context-done leaves through the exit-code check within the step bound once the module is closed, "
              "for all branch conditions. Wall-clock promptness, the watcher goroutine and the native call engine are outside this claim."),
     "C20": dict(level="model_checking", engine="gosym", technique=E1_TECH, design_ref="DESIGN.md §5 C20",
         text="Interpreter side: guest f -> guest g -> host h with recording listeners, all parameter/result values and the trap decision symbolic: the event log is well nested with exactly one before and one after/abort per call, "
              "carries the actual parameters and results, the stack iterator lists the real chain callee-outward at every before-event, results equal the listener-free run; recursion to every depth 0..39 followed by a trap "
              "gives every frame its abort. Compiler front end: with listeners compiled in, the optimised SSA of f -> g (g leaving through 8 kinds of exit incl. br_table and early returns) emits exactly the before/after events of the interpreter, for all parameter values. "
+             "Module identity (the cache key that decides whether compiled code with a given listener set is reused): for 1..18 functions and ANY two listener subsets and termination settings, equal SHA-256 input streams imply equal settings (digest model records the stream; SHA-256 assumed collision-free). "
              "wazevo's listener trampolines (machine code) and native stack iterator are outside this claim."),
     "C15": dict(level="model_checking", engine="gosym", technique=E1_TECH, design_ref="DESIGN.md §5 C15",
         text="Each of the 46 exported WASI functions is run with arbitrary argument words on a real store-registered instance whose memory is arbitrary (0..65536 pages, symbolic contents) over a file system stub "
@@ -86,12 +94,13 @@ CLAIMS.update({
     "C18": dict(level="model_checking", engine="gosym", technique=E1_TECH + " (self-composition: two contexts, host sources unconstrained)", design_ref="DESIGN.md §5 C18",
         text="Two system contexts built by the real NewModuleConfig().toSysContext(): every host source the default configuration does not replace (time.now, sleep, OS entropy) is an unconstrained symbol or cuts the path in the executor, "
              "so equality of the two contexts' readings is non-interference: wall clock and monotonic clock equal the documented fixed sequence for the first 3 readings, random bytes are equal, no args/environ, "
-             "stdin empty, stdout discards, nothing pre-opened. math/rand's generator is executed from source (seed 42); readings beyond the third and whole-guest traces are outside the claim."),
+             "stdin empty, stdout discards, nothing pre-opened. math/rand's generator is executed from source (seed 42); Contexts built LATER from the same configuration value (and from a derivation of it), after earlier instances consumed readings, start from the same random bytes and clock values. Readings beyond the third and whole-guest traces are outside the claim."),
     "C04": dict(level="model_checking", engine="gosym", technique=E1_TECH, design_ref="DESIGN.md §5 C04",
         text="Constant-expression capture: for every value type, any initial and live value and both kinds of exporting engine (globals kept by the engine or not), GlobalInstance.initialize and executeConstExpressionI32 "
              "capture the imported global's current value; what validateConstExpression accepts names an in-range global of the expected type / in-range function. Through the real pipeline on the interpreter: a grid of "
              "exporter/importer memory limits and global types/mutabilities is accepted exactly per the import-matching relation, and afterwards stores, memory.grow and global.set through one instance are observed through the other "
-             "(all addresses/values symbolic). Table and function imports, failed-instantiation rollback (see C10) and the compiler side are outside this claim."),
+             "(all addresses/values symbolic). Function references in a table shared by two instances of one compiled module and a separately compiled importer, and a directly imported function: whoever calls and however (call_indirect, return_call_indirect, call, return_call), the callee runs in the instance that defined it (its global changes, nobody else's), for all values. "
+             "Table import limit matching, failed-instantiation rollback (see C10) and the compiler side are outside this claim."),
     "C11": dict(level="model_checking", engine="gosym", technique=E1_TECH, design_ref="DESIGN.md §5 C11",
         text="Two instances of ONE compiled module (the same wasm.Module and compiled code; active and passive data segments, mutable global, table with an element) through the real pipeline on the interpreter, the second created before or after "
              "one arbitrary mutating operation on the first (store / global.set / memory.grow / memory.fill / table.set / data.drop / memory.init+data.drop with symbolic operands): the second instance's memory at a symbolic address, global, "
@@ -109,6 +118,10 @@ CLAIMS.update({
              "instructions (harness/internal/engine/wazevo/backend/isa/amd64/l2eval.go: the meaning given to each instruction kind, flags, stack and ABI), gosym, z3. "
              "A construct the evaluator does not model makes the check fail as unsupported, never pass."),
 })
+CLAIMS["C13"] = dict(level="model_checking", engine="gosym", technique=E1_TECH + "; the file system is an environment model (ordinary Go code in harness/verifrt/fsmodel.go reached by redirecting the os calls) in which every directory-changing operation is a crash point; crash counterexamples are replayed on a real directory by killing a child process under strace at the same system call", design_ref="DESIGN.md §5 C13",
+    text="Crash safety of adding an entry: the real fileCache.Add runs against a file-system model where create, write, sync, close, rename and remove are steps; for every content of 0..4 symbolic bytes delivered in 1 or 2 writes, every prior directory state (none / complete older entry / leftover temp file), every single failing step (incl. a short write) or failing content reader, and a crash before EVERY step: the final name holds nothing, the complete older entry or the complete new entry - never a partial one; on success Get returns exactly the content and Delete removes it. "
+         "Entries on load: an entry written by the real serializeCompiledModule for an arbitrary module (0..2 symbolic function offsets, 0..3 code bytes, optional source map) by a wazero of ANY version string of length 0..12 and cut to ANY length is used by the real getCompiledModuleFromCache/deserializeCompiledModule only if the version is ours and what was read equals what was written; otherwise it is reported or deleted; no Go run-time panic. "
+         "Outside the claim: determinism of code generation (same module -> same bytes), loss of un-synced data at power failure (crash = process death: written data persists), torn writes inside one system call, concurrent writers of one key, corrupted (as opposed to truncated) entries.")
 CLAIMS["C02"]["text"] += (" Compiler front end (L1): the optimised wazevo SSA of 23 load/store kinds x boundary static offsets and of 8 reuse shapes on the same base value "
     "(two accesses, narrow-then-wide, across a call that may grow the memory, across memory.grow, store-then-load, across an if/else join, constant base bound to a local, memory.size/grow) is evaluated by a reference SSA evaluator in which "
     "every dereference is an obligation (inside [0,size) of the CURRENT memory epoch - a call or grow moves the memory - or the module/execution context) and compared with the interpreter for all bases, sizes 0..65536 pages and contents. "
@@ -117,8 +130,6 @@ CLAIMS["C02"]["text"] += (" Compiler front end (L1): the optimised wazevo SSA of
 CLAIMS["C14"]["text"] += " Compiler front end: memory.size / memory.grow / memory.size compiled to SSA agrees with the interpreter for every size and delta (known finding at 65536 pages)."
 
 NOT_APPLICABLE = {
-    "C13": "Not built in this session: the on-disk cache code (internal/filecache, engine_cache.go) is mostly os/io calls; the planned environment model of a crash-prone file system (DESIGN.md §5 C13) was not reached. "
-           "Determinism of code generation is in any case outside what symbolic execution of the compiler can decide.",
     "C09": "Object lifetime under the Go collector, finalizers and munmap of code segments is a property of the Go run-time system, not of a function's "
            "input/output relation; gosym's heap has no collector and the emitted code has no notion of reclamation, so no solver query expresses it (DESIGN.md §6).",
 }
